@@ -137,6 +137,7 @@ PROPS.update({
             "learn, per scripted exchange, the number of transport receive calls, PDUs and bytes of the answer; then the conversation is re-run with exactly "
             "one fault: every receive call x {error, EINTR}, the query's send x {error, EINTR, would-block}, every PDU position x 18 protocol deviations, "
             "cuts at 25 byte offsets x {close, stall}, hang-up, silence, Cache Reset (thorough: all points of every base; quick: a stratified sample). "
+            "In combination: seeded pairs of those points (same or different exchanges of the same base; 150 per base quick, 1500 thorough). "
             "Third suite (aligned pairs): two caches of one group with equal timers; cache 0 goes through reloads while cache 1 changes its data at every "
             "poll, and the simulated network holds back the last bytes of one answer until the other socket has read the answer it is about to apply "
             "(rendezvous delay, bounded), so that both socket threads apply at the same instant and the scheduler interleaves them: 'records learned "
@@ -144,9 +145,9 @@ PROPS.update({
             "suites": [_world("C03", runs_quick=900, time_quick=25),
                        _world("C03", name="world-C03-pair", opts={"focus": "C03", "pair": 1}, runs_quick=500, time_quick=15, runs_thorough=40000, time_thorough=300),
                        {"name": "world-C03-sweep", "kind": "faultsweep", "scn": "world", "variant": "asan", "opts": {"focus": "C03", "single": 1, "clean": 1, "maxx": 5},
-                        "runs_quick": 12, "time_quick": 30, "k_per_base_quick": 120, "runs_thorough": 150, "time_thorough": 600}],
-            "min_counters": {"sync_audits": 500, "faultsweep_points": 500},
-            "exhaustive_note": "thorough tier: every single-fault point of every sampled base conversation is executed (exhaustive per base); bases are sampled",
+                        "runs_quick": 12, "time_quick": 30, "k_per_base_quick": 120, "pairs_per_base_quick": 150, "runs_thorough": 150, "time_thorough": 600, "pairs_per_base_thorough": 1500}],
+            "min_counters": {"sync_audits": 500, "faultsweep_points": 500, "faultsweep_pairs": 100},
+            "exhaustive_note": "thorough tier: every single-fault point of every sampled base conversation is executed (exhaustive per base) plus 1500 seeded fault pairs per base; bases are sampled",
             "expected_probes": ["probe_failed_sync_records_kept", "probe_reload_with_old_data", "walk_fail_dup", "walk_fail_unk", "walk_fail_flags",
                                 "walk_fail_sess-cr", "walk_fail_sess-eod", "sync_with_transport_fault"],
             "assumptions": ["exchange classification = reference walk over the exact byte stream, written from the property text"]},
@@ -174,9 +175,9 @@ PROPS.update({
             "detectors cover 'never loops without letting time advance'.",
             "suites": [_world("C08", runs_quick=900, time_quick=25),
                        {"name": "world-C08-sweep", "kind": "faultsweep", "scn": "world", "variant": "asan", "opts": {"focus": "C08", "single": 1, "clean": 1, "maxx": 5, "fast_intervals": 1},
-                        "runs_quick": 12, "time_quick": 30, "k_per_base_quick": 120, "runs_thorough": 150, "time_thorough": 600}],
-            "min_counters": {"sync_audits": 500, "probe_converged_runs": 100, "faultsweep_points": 500},
-            "exhaustive_note": "thorough tier: every single-fault point (call site x fault kind, PDU position x deviation kind) of every sampled base conversation, each followed by recovery",
+                        "runs_quick": 12, "time_quick": 30, "k_per_base_quick": 120, "pairs_per_base_quick": 150, "runs_thorough": 150, "time_thorough": 600, "pairs_per_base_thorough": 1500}],
+            "min_counters": {"sync_audits": 500, "probe_converged_runs": 100, "faultsweep_points": 500, "faultsweep_pairs": 100},
+            "exhaustive_note": "thorough tier: every single-fault point (call site x fault kind, PDU position x deviation kind) of every sampled base conversation plus 1500 seeded fault pairs per base, each followed by recovery",
             "assumptions": ["during the fault phase every response the client accepts is honest (DESIGN §8 C08)"]},
     "C13": {"level": "exploration", "rule": WORLD_RULE + " C13 plans add: caches that only speak version 0, answers in version 0 to version-1 queries, Unsupported-Version "
             "reports carrying version 0/1/2/255, hang-ups before a session exists, PDUs with arbitrary version bytes, End of Data in the other version's format.",
